@@ -8,6 +8,8 @@ Decided (DESIGN §3 C11), for the three stateful families (flow, hotspot, circui
   C11.rebuild       build_resource_*, per new rule: equal old rule -> the OLD object (taken from the old list) is pushed and no generator
                     runs; otherwise the generator is called with the NEW rule and its result pushed; old statistics are handed over only
                     when the reuse index is set
+  C11.reuse-shape   is_stat_reusable compares every rule field that flows into the statistics constructor and (hotspot, circuit breaker)
+                    the field that selects the generator: old statistics are handed over only to a rule they fit
   C11.old-list      every load path hands build_resource_* the currently enforced list of the same key (so state can be found)
   C11.fresh-read    entries read the controller/breaker list of their resource from the enforced map on every check (no cached copy)
 """
@@ -37,6 +39,7 @@ def run(ctx):
         reuse_index(ctx, f, fam, cfg)
         rebuild(ctx, f, fam, builder, cfg)
         old_list(ctx, f, fam, builder, emap, cfg)
+        reuse_shape(ctx, f, fam, cfg)
     fresh_read(ctx, f, cfg)
 
 
@@ -269,14 +272,14 @@ def reuse_index(ctx, f, fam, cfg):
     return b
 
 
-def rebuild(ctx, f, fam, builder, cfg):
+def rebuild(ctx, f, fam, builder, cfg, R="C11.rebuild"):
     b = f.bodies.get("core::%s::rule_manager::%s" % (fam, builder))
-    if not ctx.floor("C11.rebuild", "%s::%s" % (fam, builder), 1 if b else 0, 1):
+    if not ctx.floor(R, "%s::%s" % (fam, builder), 1 if b else 0, 1):
         return
     sl = Slicer(f, b)
     helper = [t for _, t in b.calls() if callee_def(t).rsplit("::", 1)[-1] == "calculate_reuse_index_for" or (f.call_targets(b, t) and f.bodies.get(f.call_targets(b, t)[0]) is not None and f.bodies[f.call_targets(b, t)[0]].ret_ty == "(usize, usize)")]
     if not helper:
-        ctx.violation("C11.rebuild", "C11.rebuild|%s|no-helper" % fam, "builder does not compute reuse indices", b.loc(), config=cfg)
+        ctx.violation(R, "%s|%s|no-helper" % (R, fam), "builder does not compute reuse indices", b.loc(), config=cfg)
         return
     hdest = helper[0]["dest"]["l"]
     roles = [("eq_idx", ["field:.0"], []), ("reuse_idx", ["field:.1"], [])]
@@ -318,7 +321,7 @@ def rebuild(ctx, f, fam, builder, cfg):
             gen_sites[bb] = "gen(new rule, old stat)" if with_old_stat else "gen(new rule, None)"
     its = [bb for bb, t in b.calls() if callee_is(t, "Iterator::next")]
     if not its:
-        ctx.violation("C11.rebuild", "C11.rebuild|%s|no-loop" % fam, "builder does not iterate the new rules", b.loc(), config=cfg)
+        ctx.violation(R, "%s|%s|no-loop" % (R, fam), "builder does not iterate the new rules", b.loc(), config=cfg)
         return
 
     def oname(t, atoms):
@@ -355,7 +358,7 @@ def rebuild(ctx, f, fam, builder, cfg):
     try:
         rows, atoms = D.table(paths, outcome)
     except OverflowError as e:
-        ctx.violation("C11.rebuild", "C11.rebuild|%s|table" % fam, str(e), config=cfg)
+        ctx.violation(R, "%s|%s|table" % (R, fam), str(e), config=cfg)
         return
     n_reuse = n_gen = 0
     bad = []
@@ -385,10 +388,10 @@ def rebuild(ctx, f, fam, builder, cfg):
                     if "push generated" not in o and "push" in o:
                         bad.append((D.fmt_asg(asg)[:120], o, "push the generated object"))
     ok = not bad and n_reuse > 0 and n_gen > 0
-    ctx.instance("C11.rebuild", b.path, {"rows_reusing": n_reuse, "rows_generating": n_gen, "mismatches": bad[:3], "generator_sites": sorted(set(gen_sites.values())), "push_kinds": sorted(set(pushes.values()))},
+    ctx.instance(R, b.path, {"rows_reusing": n_reuse, "rows_generating": n_gen, "mismatches": bad[:3], "generator_sites": sorted(set(gen_sites.values())), "push_kinds": sorted(set(pushes.values()))},
                  "equal old rule -> push the old object, no generator; otherwise generator(new rule, old stat iff reuse index set) and push its result", ok, cfg)
     if not ok:
-        ctx.violation("C11.rebuild", "C11.rebuild|%s" % fam, "%s does not keep the old object for an unchanged rule / build a new one for a changed rule: %s" % (builder, bad[:2] or {"reuse": n_reuse, "gen": n_gen}), b.loc(), config=cfg)
+        ctx.violation(R, "%s|%s" % (R, fam), "%s does not keep the old object for an unchanged rule / build a new one for a changed rule: %s" % (builder, bad[:2] or {"reuse": n_reuse, "gen": n_gen}), b.loc(), config=cfg)
     # an object / statistics handed over is taken OUT of the old list (so it can be handed out at most once per rebuild);
     # judged per feasible path of the symbolic walk (the removal is guarded by the same index test as the hand-over)
     removes = {bb for bb, t in b.calls() if callee_def(t).endswith(("Vec::<T, A>::remove", "Vec::<T, A>::swap_remove"))}
@@ -417,10 +420,10 @@ def rebuild(ctx, f, fam, builder, cfg):
             if "remove" not in seq:
                 lost.append("reused statistics")
     lost = sorted(set(lost))
-    ctx.instance("C11.rebuild/take-out", b.path, {"paths_handing_over": n_take, "remove_sites": len(removes), "not_removed_on_some_path": lost},
+    ctx.instance(R + "/take-out", b.path, {"paths_handing_over": n_take, "remove_sites": len(removes), "not_removed_on_some_path": lost},
                  "whatever is reused is removed from the old list before the next rule is considered", not lost and bool(removes) and n_take >= 2, cfg)
     if lost or not removes or n_take < 2:
-        ctx.violation("C11.rebuild", "C11.rebuild|%s|take-out" % fam,
+        ctx.violation(R, "%s|%s|take-out" % (R, fam),
                       "%s hands over %s of an old rule without removing it from the old list: a second new rule can inherit the same object (e.g. two rules sharing one private window)" % (builder, lost or "state"), b.loc(), config=cfg)
     # the generator gets the NEW rule
     for bb, t in b.calls():
@@ -429,9 +432,153 @@ def rebuild(ctx, f, fam, builder, cfg):
             for x in t["args"][1:]:
                 a |= sl.of_operand(x)
             okn = any_atom(a, "call:Iterator::next") or any_atom(a, "param:rules_of_res")
-            ctx.instance("C11.rebuild/new-rule", "%s@%s" % (b.path, gen_sites.get(bb)), "generator argument derives from the iterated new rules: %s" % okn, "true", okn, cfg)
+            ctx.instance(R + "/new-rule", "%s@%s" % (b.path, gen_sites.get(bb)), "generator argument derives from the iterated new rules: %s" % okn, "true", okn, cfg)
             if not okn:
-                ctx.violation("C11.rebuild", "C11.rebuild|%s|generator-arg" % fam, "the generator is not called with the new rule", b.loc(bb), config=cfg)
+                ctx.violation(R, "%s|%s|generator-arg" % (R, fam), "the generator is not called with the new rule", b.loc(bb), config=cfg)
+
+
+# ---- what the reuse predicate has to cover -------------------------------------------------------------------------------------------
+# constructor sites of the per-rule statistics object, per family (confirmed by reading; floors = sites counted on the pinned tree)
+SHAPE_SITES = {
+    "flow": (lambda p: p == "core::flow::rule_manager::generate_stat_for",
+             ("StandaloneStat::new", "SlidingWindowMetric::new", "BucketLeapArray::new", "LeapArray::<T>::new"), 5),
+    "hotspot": (lambda p: p == "core::hotspot::traffic_shaping::Controller::<C>::new", ("CounterTrait::with_capacity",), 3),
+    "circuitbreaker": (lambda p: p.startswith("core::circuitbreaker::breaker::") and p.endswith("Breaker::new"), ("LeapArray::<T>::new",), 3),
+}
+# families whose generator implementations interpret the handed-over statistics differently (sibling implementations share the cells):
+# the field that selects the generator has to be part of the predicate.  flow is not listed: every flow checker reads the same
+# event counts of a window, whatever the control behaviour.
+SELECTOR_FAMS = {
+    "hotspot": "reject and throttling checkers keep different quantities (refill time / last pass time) in ParamsMetric.rule_time_counter",
+    "circuitbreaker": "the three breakers count different events (slow / error / total) in the same CounterLeapArray type",
+}
+
+
+def _self_fields(f, adt, path, depth=0, seen=None):
+    """Fields of `adt` read through `self` in method `path` (transitively through other methods of the type)."""
+    seen = seen if seen is not None else set()
+    if path in seen or depth > 3:
+        return set()
+    seen.add(path)
+    b = f.bodies.get(path)
+    out = set()
+    if b is None:
+        return out
+    for blk in b.blocks:
+        if blk["cleanup"]:
+            continue
+        pls = []
+        for st in blk["stmts"]:
+            if st["k"] == "assign":
+                rv = st["rv"]
+                if "pl" in rv:
+                    pls.append(rv["pl"])
+                for key in ("op", "a", "b"):
+                    if key in rv and isinstance(rv[key], dict) and rv[key].get("pl"):
+                        pls.append(rv[key]["pl"])
+        t = blk["term"]
+        if t and t["k"] == "call":
+            for x in t["args"]:
+                if x.get("pl"):
+                    pls.append(x["pl"])
+            for tgt in f.call_targets(b, t) or []:
+                if tgt.startswith(adt + "::"):
+                    out |= _self_fields(f, adt, tgt, depth + 1, seen)
+        if t and t["k"] == "switch" and t["op"].get("pl"):
+            pls.append(t["op"]["pl"])
+        for pl in pls:
+            for pj in pl["p"]:
+                if pj.startswith("." + adt + "."):
+                    out.add(pj.rsplit(".", 1)[-1])
+    return out
+
+
+def _rule_fields_of(f, adt, atoms):
+    out = {x.rsplit(".", 1)[-1] for x in atoms if x.startswith("field:" + adt + ".")}
+    for x in atoms:
+        if x.startswith("call:" + adt + "::"):
+            out |= _self_fields(f, adt, x[5:])
+    return out
+
+
+def compared_in_reuse_predicate(f, adt):
+    b = f.bodies.get(adt + "::is_stat_reusable")
+    if b is None:
+        return None, None
+    sl = Slicer(f, b)
+    used = {"self": set(), "other": set()}
+    for blk in b.blocks:
+        if blk["cleanup"]:
+            continue
+        pls = []
+        for st in blk["stmts"]:
+            if st["k"] == "assign":
+                rv = st["rv"]
+                if "pl" in rv:
+                    pls.append(rv["pl"])
+                for key in ("op", "a", "b"):
+                    if key in rv and isinstance(rv[key], dict) and rv[key].get("pl"):
+                        pls.append(rv[key]["pl"])
+        t = blk["term"]
+        if t and t["k"] == "call":
+            for x in t["args"]:
+                if x.get("pl"):
+                    pls.append(x["pl"])
+            for tgt in f.call_targets(b, t) or []:
+                if tgt.startswith(adt + "::") and t["args"]:
+                    at = sl.of_operand(t["args"][0])
+                    for side in ("self", "other"):
+                        if "param:" + side in at:
+                            used[side] |= _self_fields(f, adt, tgt)
+        for pl in pls:
+            for pj in pl["p"]:
+                if pj.startswith("." + adt + "."):
+                    at = sl.of_place({"l": pl["l"], "p": []})
+                    for side in ("self", "other"):
+                        if "param:" + side in at:
+                            used[side].add(pj.rsplit(".", 1)[-1])
+    return b, used["self"] & used["other"]
+
+
+def reuse_shape(ctx, f, fam, cfg, R="C11.reuse-shape"):
+    """The statistics of an old rule may be handed to a new one only if every rule field that shapes the statistics object (flows into
+    its constructor) - and, where sibling generators interpret the same cells differently, the field that selects the generator - is
+    equal: is_stat_reusable has to compare them."""
+    adt = FAMS[fam][0]
+    pb, compared = compared_in_reuse_predicate(f, adt)
+    if not ctx.floor(R, "%s::is_stat_reusable" % adt, 1 if pb else 0, 1):
+        return
+    sel, names, floor = SHAPE_SITES[fam]
+    shape, nsites = set(), 0
+    for p, b in f.bodies.items():
+        if not sel(p):
+            continue
+        sl = Slicer(f, b)
+        for bb, t in b.calls():
+            if callee_def(t).endswith(names):
+                nsites += 1
+                at = set()
+                for a in t["args"]:
+                    at |= sl.of_operand(a)
+                shape |= _rule_fields_of(f, adt, at)
+    ctx.floor(R, "%s statistics constructor sites" % fam, nsites, floor)
+    selector = set()
+    if fam in SELECTOR_FAMS:
+        b = f.bodies.get("core::%s::rule_manager::%s" % (fam, FAMS[fam][1]))
+        if b is not None:
+            sl = Slicer(f, b)
+            for bb, t in b.calls():
+                if callee_def(t).endswith("::get") and len(t["args"]) == 2 and any(x.startswith("static:") and x.endswith("GEN_FUN_MAP") for x in sl.of_operand(t["args"][0])):
+                    selector |= _rule_fields_of(f, adt, sl.of_operand(t["args"][1]))
+        ctx.floor(R, "%s generator selector fields" % fam, len(selector), 1)
+    missing = sorted((shape | selector) - compared)
+    ctx.instance(R, pb.path, {"compared": sorted(compared), "shape_fields": sorted(shape), "selector_fields": sorted(selector), "not_compared": missing},
+                 "every shaping / selecting field is compared", not missing, cfg)
+    if missing:
+        ctx.violation(R, "%s|%s|not-compared:%s" % (R, fam, ",".join(missing)),
+                      "%s::is_stat_reusable ignores %s although %s: statistics built for a different %s are handed to the new rule" % (
+                          fam, missing, "the field selects the generator (%s)" % SELECTOR_FAMS[fam] if set(missing) & selector else "the statistics constructor is fed from it", missing),
+                      pb.loc(), config=cfg)
 
 
 def _contradictory(lits):
